@@ -105,13 +105,18 @@ def property_theorems():
     pdir = LEAN + "/Lox/Props"
     if not os.path.isdir(pdir):
         return res
+    root = strip_comments(open(LEAN + "/Lox.lean").read())
+    imported = set(re.findall(r"^import\s+(\S+)", root, re.M))
     for f in sorted(os.listdir(pdir)):
-        m = re.match(r"(C\d+)\.lean$", f)
+        if "Lox.Props." + f[:-5] not in imported:
+            continue  # delivered but not yet part of the checked library
+        m = re.match(r"(C\d+)(?:_\w+)?\.lean$", f)
         if not m:
             continue
         src = strip_comments(open(os.path.join(pdir, f)).read())
         names = re.findall(r"^\s*(?:@\[[^\]]*\]\s*)?(?:protected\s+)?theorem\s+([A-Za-z_][\w.'!?]*)", src, re.M)
-        res[m.group(1)] = ["Lox.Props.%s.%s" % (m.group(1), n) for n in names]
+        res.setdefault(m.group(1), [])
+        res[m.group(1)] += ["Lox.Props.%s.%s" % (m.group(1), n) for n in names]
     return res
 
 
@@ -249,7 +254,8 @@ class Run:
             raise FamilyError(family, "line count mismatch cases=%d impl=%d" % (len(cases), len(impl)))
         for i, c in enumerate(cases):
             m = model[i] if i < len(model) else "<missing>"
-            if impl[i].rstrip() != m.rstrip():
+            a, b = impl[i].rstrip(), m.rstrip()
+            if a != b and not (a == "ok" and b.startswith("ok ")):
                 mism.append((i, c, impl[i], m))
         meta = json.load(open(d + "/meta.json"))
         self.cov["evaluations"] += len(cases)
@@ -271,6 +277,8 @@ class Run:
         p = self.replay_path(tag)
         payload = dict(payload)
         payload.setdefault("property", self.prop)
+        payload.setdefault("seed", self.seed)
+        payload.setdefault("tier", self.tier)
         payload.setdefault("how_to_rerun", "bin/check %s --replay %s" % (self.prop, p))
         with open(p, "w") as f:
             json.dump(payload, f, indent=1, ensure_ascii=False)
